@@ -43,6 +43,7 @@ func main() {
 	vdir := flag.String("verif", "", "verif root (default /verif)")
 	noEvidence := flag.Bool("no-evidence", false, "do not write evidence/replay files (self-test child runs)")
 	list := flag.Bool("list", false, "list rule instances of the property")
+	selftest := flag.Bool("selftest", false, "also run the self-test catalogue of the property (implied by -tier thorough)")
 	flag.Parse()
 
 	if *repo != "" {
@@ -115,6 +116,9 @@ func main() {
 		c.Tier = *tier
 		c.Seed = seed
 		pd.run(c, r)
+		if (*tier == "thorough" || *selftest) && onlyKey == "" && os.Getenv("GZCHECK_CHILD") == "" {
+			runSelftest(pd.id, r)
+		}
 		if *list {
 			for _, o := range r.obls {
 				st := "ok"
